@@ -158,11 +158,13 @@ pub struct ScOpts {
     pub stale_info: bool,
     /// turn the formatter's filler file into bad-cluster marks (same free space, no huge chain to walk)
     pub bad_fill: bool,
+    /// add a sub-directory FULLDIR whose entries fill exactly 1..3 clusters (the next create must grow it)
+    pub full_dir: bool,
 }
 
 impl Default for ScOpts {
     fn default() -> Self {
-        ScOpts { fat32: None, keep_free: None, dirty: false, multi_volume: false, big_tree: true, limits: None, small_root: false, bpc_choices: vec![1, 1, 2, 4, 8], stale_info: false, bad_fill: true }
+        ScOpts { fat32: None, keep_free: None, dirty: false, multi_volume: false, big_tree: true, limits: None, small_root: false, bpc_choices: vec![1, 1, 2, 4, 8], stale_info: false, bad_fill: true, full_dir: false }
     }
 }
 
@@ -180,7 +182,7 @@ pub fn lfn_units(s: &str) -> Vec<u16> {
     s.encode_utf16().collect()
 }
 
-fn sample_tree(rng: &mut Rng, cluster_bytes: usize, big: bool) -> Vec<Node> {
+fn sample_tree(rng: &mut Rng, cluster_bytes: usize, big: bool, full_dir: bool) -> Vec<Node> {
     let mut nodes = Vec::new();
     let sizes = [0usize, 1, 511, 512, 513, cluster_bytes - 1, cluster_bytes, cluster_bytes + 1, 3 * cluster_bytes + 1, 2 * cluster_bytes];
     let nfiles = if big { 5 + rng.below(4) as usize } else { 2 };
@@ -209,6 +211,17 @@ fn sample_tree(rng: &mut Rng, cluster_bytes: usize, big: bool) -> Vec<Node> {
         ];
         nodes.push(Node::Dir { name: mkfs::short_name("SUB"), lfn: Some(lfn_units("subdirectory with long name")), attr: 0x10, children: sub_children, ctime: stamp(rng), mtime: stamp(rng), extra_clusters: rng.below(3) as u32 });
         nodes.push(Node::Dir { name: mkfs::short_name("EMPTY"), lfn: None, attr: 0x10, children: vec![], ctime: stamp(rng), mtime: stamp(rng), extra_clusters: 0 });
+    }
+    if full_dir {
+        let slots = cluster_bytes / 32;
+        let k = 1 + rng.below(3) as usize;
+        let n = k * slots - 2;
+        let mut children = Vec::new();
+        for i in 0..n {
+            let len = if i % 9 == 4 { 300 + (i % 5) * 211 } else { 0 };
+            children.push(Node::File { name: mkfs::short_name(&format!("E{i:05}.DAT")), lfn: None, attr: 0x20, content: content(rng, len, i as u8), ctime: stamp(rng), mtime: stamp(rng), fragmented: false });
+        }
+        nodes.push(Node::Dir { name: mkfs::short_name("FULLDIR"), lfn: None, attr: 0x10, children, ctime: stamp(rng), mtime: stamp(rng), extra_clusters: 0 });
     }
     nodes
 }
@@ -317,7 +330,7 @@ pub fn make_scenario(rng: &mut Rng, o: &ScOpts) -> Scenario {
             label: *b"VERIF      ",
             use_total16: rng.chance(1, 2),
         };
-        let tree = sample_tree(rng, bpc as usize * 512, o.big_tree && v == 0 && !(o.small_root && !fat32));
+        let tree = sample_tree(rng, bpc as usize * 512, o.big_tree && v == 0 && !(o.small_root && !fat32), o.full_dir && v == 0);
         let keep_free = o.keep_free.as_ref().map(|ks| *rng.pick(ks));
         let layout = mkfs::compute_layout(&geom);
         next_lba = layout.lba_start + layout.total_blocks + rng.below(9) as u32;
@@ -499,7 +512,16 @@ impl GState {
             }
             x -= *w;
         }
-        let d = rng.pick(&self.dirs).clone();
+        let fulldir = sfn("FULLDIR");
+        let have_full = self.dirs.iter().any(|g| g.path.last() == Some(&fulldir));
+        if !have_full && self.dirs.len() < sc.limits.0 && rng.chance(1, 4) {
+            if let Some(root) = self.dirs.iter().find(|g| g.path.is_empty()) {
+                if self.trees[root.vol].children.contains_key(&fulldir) {
+                    return Op::OpenDir(root.handle, "FULLDIR".into());
+                }
+            }
+        }
+        let d = if have_full && rng.chance(1, 2) { self.dirs.iter().find(|g| g.path.last() == Some(&fulldir)).unwrap().clone() } else { rng.pick(&self.dirs).clone() };
         let existing: Vec<(Name, bool)> = self.trees[d.vol].dir_at(&d.path).map(|dd| dd.children.iter().map(|(n, c)| (*n, matches!(c, RefNode::Dir(_)))).collect()).unwrap_or_default();
         let name_str = |n: &Name| -> String {
             let base: String = n[..8].iter().filter(|b| **b != b' ').map(|b| *b as char).collect();
